@@ -1985,6 +1985,9 @@ func (w *Writer) tryConstEvalBinary(b ir.ExprBinary) (string, bool) {
 	if !w.involvesExprConstant(b.Left) && !w.involvesExprConstant(b.Right) {
 		return "", false
 	}
+	if !constEvalSupportsBinary(b.Op) {
+		return "", false
+	}
 	leftVal, leftOk := w.exprConstValue(b.Left)
 	rightVal, rightOk := w.exprConstValue(b.Right)
 	if !leftOk || !rightOk {
@@ -2016,6 +2019,16 @@ func (w *Writer) tryConstEvalUnary(u ir.ExprUnary) (string, bool) {
 		return w.formatConstResult(u.Expr, -val), true
 	}
 	return "", false
+}
+
+// constEvalSupportsBinary reports whether ir.EvalBinaryFloat implements op;
+// it returns 0 for every other operator, which must not be folded here.
+func constEvalSupportsBinary(op ir.BinaryOperator) bool {
+	switch op {
+	case ir.BinaryAdd, ir.BinarySubtract, ir.BinaryMultiply, ir.BinaryDivide:
+		return true
+	}
+	return false
 }
 
 // involvesExprConstant checks if an expression references an ExprConstant (named constant).
@@ -2087,6 +2100,9 @@ func (w *Writer) exprConstValueUncached(handle ir.ExpressionHandle, memo map[ir.
 			}
 		}
 	case ir.ExprBinary:
+		if !constEvalSupportsBinary(k.Op) {
+			return 0, false
+		}
 		left, leftOk := w.exprConstValueMemo(k.Left, memo)
 		right, rightOk := w.exprConstValueMemo(k.Right, memo)
 		if leftOk && rightOk {
